@@ -135,10 +135,12 @@ def inspect_phc(
 
 
 def phc_b64_encode(string: str) -> str:
-    return base64.urlsafe_b64encode(string.encode()).decode().rstrip("=")
+    return base64.b64encode(string.encode()).decode().rstrip("=")
 
 
 def phc_b64_decode(string: str) -> str:
     if len(string) % 4 != 0:
         string += "=" * (4 - (len(string) % 4))
-    return base64.urlsafe_b64decode(string.encode()).decode()
+    # NOTE: PHC B64 is the standard alphabet without padding; "-" and "_" are still
+    #       accepted for strings written by older versions of phc_b64_encode().
+    return base64.b64decode(string.encode().translate(bytes.maketrans(b"-_", b"+/"))).decode()
